@@ -173,4 +173,121 @@ example :
       (fun r => (r.x, r.y, r.mw, r.width, r.x + r.mw + 20)) = some (153, 15, 47, 40, 20 + 200) := by
   decide +kernel
 
+/-! ## Replaced boxes (`absolute_replaced`) at the document level -/
+
+/-- `absolute_replaced`, both halves composed, with everything that is known about each used value: the result is
+placed at `cb + (left, top)`; both constraint equations hold; a specified offset is the used one (except the one
+CSS 2.1 §10.3.8 / §10.6.5 say to ignore when nothing is auto: `right` in ltr, `left` in rtl, `bottom`); with both
+offsets of an axis auto the static position is kept (ltr horizontally). -/
+theorem abs_replaced_full (b : RBox) (ltr : Bool) (cbX cbY cbW cbH : Rat) :
+    ∃ r l rt t bo ml mr mt mb, absoluteReplaced b ltr cbX cbY cbW cbH = .ok r ∧
+      r.posX = cbX + l ∧ r.posY = cbY + t ∧
+      r.ml = some ml ∧ r.mr = some mr ∧ r.mt = some mt ∧ r.mb = some mb ∧
+      r.borderWidth = b.borderWidth ∧ r.borderHeight = b.borderHeight ∧
+      l + ml + b.borderWidth + mr + rt = cbW ∧
+      t + mt + b.borderHeight + mb + bo = cbH ∧
+      (∀ l0, b.left = some l0 → (b.right = none ∨ b.ml = none ∨ b.mr = none ∨ ltr = true) → l = l0) ∧
+      (∀ r0, b.right = some r0 → (b.left = none ∨ b.ml = none ∨ b.mr = none ∨ ltr = false) → rt = r0) ∧
+      (∀ t0, b.top = some t0 → t = t0) ∧
+      (∀ b0, b.bottom = some b0 → (b.top = none ∨ b.mt = none ∨ b.mb = none) → bo = b0) ∧
+      (b.left = none → b.right = none → ltr = true → l = b.posX - cbX) ∧
+      (b.top = none → b.bottom = none → t = b.posY - cbY) := by
+  obtain ⟨l, rt, ml, mr, h1, h2, h3, h4, hf, kl, kr, ks, heq⟩ := abs_replaced_h b ltr cbX cbW
+  obtain ⟨t, bo, mt, mb, g1, g2, g3, g4, gf, kt, kb, kvs, _, geq⟩ :=
+    abs_replaced_v (absoluteReplacedH b ltr cbX cbW) cbY cbH
+  have e1 : (absoluteReplacedH b ltr cbX cbW).top = b.top := by rw [hf]
+  have e2 : (absoluteReplacedH b ltr cbX cbW).bottom = b.bottom := by rw [hf]
+  have e3 : (absoluteReplacedH b ltr cbX cbW).mt = b.mt := by rw [hf]
+  have e4 : (absoluteReplacedH b ltr cbX cbW).mb = b.mb := by rw [hf]
+  have e5 : (absoluteReplacedH b ltr cbX cbW).borderHeight = b.borderHeight := by
+    rw [hf]; simp [RBox.borderHeight]
+  have e6 : (absoluteReplacedH b ltr cbX cbW).borderWidth = b.borderWidth := by
+    rw [hf]; simp [RBox.borderWidth]
+  have e7 : (absoluteReplacedH b ltr cbX cbW).posY = b.posY := by rw [hf]
+  have hl : (absoluteReplacedV (absoluteReplacedH b ltr cbX cbW) cbY cbH).left = some l := by
+    rw [gf]; simp; exact h1
+  refine ⟨{ absoluteReplacedV (absoluteReplacedH b ltr cbX cbW) cbY cbH with posX := cbX + l, posY := cbY + t },
+    l, rt, t, bo, ml, mr, mt, mb, ?_, rfl, rfl, ?_, ?_, ?_, ?_, ?_, ?_, heq, ?_, kl, kr, ?_, ?_, ?_, ?_⟩
+  · unfold absoluteReplaced
+    simp only
+    rw [hl, g1]
+  · simp; rw [gf]; simp; exact h3
+  · simp; rw [gf]; simp; exact h4
+  · simp; exact g3
+  · simp; exact g4
+  · simp only [RBox.borderWidth]; rw [gf]; simp; exact e6
+  · simp only [RBox.borderHeight]; rw [gf]; simp; exact e5
+  · rw [← e5]; exact geq
+  · intro t0 ht; exact kt t0 (by rw [e1]; exact ht)
+  · intro b0 hb hc; exact kb b0 (by rw [e2]; exact hb) (by rw [e1, e3, e4]; exact hc)
+  · intro hl0 hr0 hltr; exact (ks hl0 hr0).1 hltr
+  · intro ht hb; rw [← e7]; exact kvs (by rw [e1]; exact ht) (by rw [e2]; exact hb)
+
+/-- The box `absolute_box_layout` hands to `absolute_replaced` for an image with specified sizes `w`, `h`. -/
+def rboxOf (st : AbsStyle) (cb : Rect) (w h sx sy : Rat) : RBox :=
+  { left := st.left.resolve cb.w, right := st.right.resolve cb.w,
+    top := st.top.resolve cb.h, bottom := st.bottom.resolve cb.h,
+    ml := st.ml.resolve cb.w, mr := st.mr.resolve cb.w, mt := st.mt.resolve cb.w, mb := st.mb.resolve cb.w,
+    width := w, height := h,
+    pl := autoZero (st.pl.resolve cb.w), pr := autoZero (st.pr.resolve cb.w), bl := st.bl, br := st.br,
+    pt := autoZero (st.pt.resolve cb.w), pbot := autoZero (st.pbot.resolve cb.w), bt := st.bt, bb := st.bb,
+    posX := sx, posY := sy }
+
+/-- **The constraint equations of an absolutely / fixed positioned replaced box at the document level** (CSS 2.1
+§10.3.8 / §10.6.5; `absolute_box_layout` + `absolute_replaced` for an image with specified sizes): whatever the
+computed style — offsets and margins independently auto, px or percentages of the containing rectangle, paddings,
+borders, ltr / rtl — there are used offsets `l rt t bo` with the margin box at `cb + (l, t)`,
+`l + margin box + rt = width` and `t + margin box + bo = height` of the containing block; a specified offset is the
+used one, except the one the specification says to ignore when nothing on the axis is auto (`right` in ltr, `left`
+in rtl, `bottom`); with both offsets of an axis auto the static position is kept (ltr horizontally). -/
+theorem abs_replaced_doc_equation (st : AbsStyle) (cb : Rect) (ltr : Bool) (sx sy : Rat) (r : AbsResult)
+    (h : absoluteReplacedDoc st cb ltr sx sy = .ok r) :
+    ∃ l rt t bo, r.x = cb.x + l ∧ r.y = cb.y + t ∧ l + r.mw + rt = cb.w ∧ t + r.mh + bo = cb.h ∧
+      (∀ l0, st.left.resolve cb.w = some l0 → (st.right.resolve cb.w = none ∨ st.ml.resolve cb.w = none ∨
+        st.mr.resolve cb.w = none ∨ ltr = true) → l = l0) ∧
+      (∀ r0, st.right.resolve cb.w = some r0 → (st.left.resolve cb.w = none ∨ st.ml.resolve cb.w = none ∨
+        st.mr.resolve cb.w = none ∨ ltr = false) → rt = r0) ∧
+      (∀ t0, st.top.resolve cb.h = some t0 → t = t0) ∧
+      (∀ b0, st.bottom.resolve cb.h = some b0 → (st.top.resolve cb.h = none ∨ st.mt.resolve cb.w = none ∨
+        st.mb.resolve cb.w = none) → bo = b0) ∧
+      (st.left.resolve cb.w = none → st.right.resolve cb.w = none → ltr = true → r.x = sx) ∧
+      (st.top.resolve cb.h = none → st.bottom.resolve cb.h = none → r.y = sy) := by
+  unfold absoluteReplacedDoc at h
+  split at h
+  · rename_i w hh hw hhh
+    simp only at h
+    change (match absoluteReplaced (rboxOf st cb w hh sx sy) ltr cb.x cb.y cb.w cb.h with
+      | .error e => _ | .ok r => _) = _ at h
+    obtain ⟨r', l, rt, t, bo, ml, mr, mt, mb, hok, px, py, m1, m2, m3, m4, bw, bh, eqh, eqv, kl, kr, kt, kb, sh, sv⟩ :=
+      abs_replaced_full (rboxOf st cb w hh sx sy) ltr cb.x cb.y cb.w cb.h
+    rw [hok] at h
+    simp only [Except.ok.injEq] at h
+    subst h
+    simp only [m1, m2, m3, m4, autoZero]
+    refine ⟨l, rt, t, bo, px, py, ?_, ?_, ?_, ?_, ?_, ?_, ?_, ?_⟩
+    · rw [bw]; grind
+    · rw [bh]; grind
+    · intro l0 hl hc; exact kl l0 hl hc
+    · intro r0 hr hc; exact kr r0 hr hc
+    · intro t0 ht; exact kt t0 ht
+    · intro b0 hb hc; exact kb b0 hb hc
+    · intro hl hr hltr
+      have := sh hl hr hltr
+      have hp : (rboxOf st cb w hh sx sy).posX = sx := rfl
+      rw [px, this, hp]; grind
+    · intro ht hb
+      have := sv ht hb
+      have hp : (rboxOf st cb w hh sx sy).posY = sy := rfl
+      rw [py, this, hp]; grind
+  · simp at h
+
+/-- Non-vacuity: an image 40x30 with `right: 10px; top: 10%; margin-right: 5px`, a 2px left padding and 1px borders
+in a 200x100 containing rectangle at (20, 10): the margin box (49px) ends 10px before the right edge. -/
+example :
+    let st : AbsStyle := ⟨.auto, .px 10, .pct 10, .auto, .px 40, .px 30, .auto, .px 5, .px 0, .px 0,
+      .px 2, .px 0, .px 0, .px 0, 1, 1, 1, 1, .auto, .auto, .auto, .auto⟩
+    (absoluteReplacedDoc st ⟨20, 10, 200, 100⟩ true 33 44).toOption.map
+      (fun r => (r.x, r.y, r.mw, r.mh, r.x + r.mw + 10)) = some (161, 20, 49, 32, 20 + 200) := by
+  decide +kernel
+
 end Wp.C11
